@@ -313,7 +313,9 @@ def main(argv=None):
                 f = [x for x in findings if x["key"] == key]
                 if f and f[0]["status"] == "known":
                     if v is not None:
-                        known_lines.append("KNOWN-FINDING: property=%s %s [%s]" % (prop, f[0]["what"], key))
+                        ln = "KNOWN-FINDING: property=%s %s [%s]" % (prop, f[0]["what"], key)
+                        if ln not in known_lines:
+                            known_lines.append(ln)
                     else:
                         print("note: known finding %s no longer reproduces from %s" % (key, fn))
                 else:
